@@ -12,12 +12,13 @@ EXPLANATION = (
     "ASCON-KMAC/KMACA and ASCON-PBKDF2 against their definitions over the customised XOF (names 'KDF', 'KMAC', 'PBKDF2'; "
     "PBKDF2: RFC 8018 section 5.2 with block index big-endian from 1, T = U1 xor .. xor Uc, count 0 treated as 1, last "
     "block truncated, for counts 0..3 and output lengths around the 32-byte block) with XOF absorb/squeeze and the "
-    "permutation as specification stubs and everything else the real code."
+    "permutation as specification stubs and everything else the real code. ascon_pbkdf2_hmac: the same RFC 8018 iteration "
+    "over the abstract HMAC model (U_1 = HMAC(P, S || INT(i)), U_j = HMAC(P, U_{j-1})), counts 0..3, HMAC object freed per block."
 )
 ASSUMPTIONS = [
     "plain-assertion groups (postconditions asserted by the harness) over specification stubs / an abstract HMAC model; request lengths, positions, counts and short buffer lengths are enumerated constants, long caller buffers are 'any length above 64'",
     "HKDF: the reference presents T(n-1), info and the counter octet to HMAC as three update pieces, as RFC 5869 writes them; a refactoring that re-chunks these updates would need the reference re-chunked (the abstract HMAC model is chunking-sensitive)",
-    "PBKDF2 password (absorbed inside ascon-xof.c by the real absorb loop) has a small constant length in these groups; ascon_pbkdf2_hmac is not covered",
+    "PBKDF2 password (absorbed inside ascon-xof.c by the real absorb loop) has a small constant length in these groups; ascon_pbkdf2_hmac: over the abstract HMAC model (password 5 bytes, salt 7 bytes, counts 0..3)",
     "PBKDF2 iteration counts above 3 and HKDF requests above 100 bytes are outside the enumerated bounds (the structure per block/iteration is what is checked)",
 ]
 
@@ -26,4 +27,5 @@ def groups(tier):
     gs = []
     gs += common.hkdf_groups("c05", ["C05"], tier=tier)
     gs += common.cxof_kdf_groups("c05", ["C05"], ["kdf", "kmac", "pbkdf2"], tier=tier)
+    gs += common.pbkdf2_hmac_groups("c05", ["C05"], tier)
     return gs
